@@ -2,7 +2,7 @@
 From PL Require Import Data.Arith.
 From Coq Require Import String List.
 Import ListNotations.
-Open Scope string_scope.
+Local Open Scope string_scope.
 
 Definition numbers_impl : list (string * arith_impl) :=
   [
